@@ -193,7 +193,23 @@ def random_chunks(rng, n, max_chunks=3):
 
 # ---------------------------------------------------------------- c2a
 
+_BIG_C2A = [255, 256, 257]
+
+
 def gen_c2a(rng):
+    forced = _BIG_C2A.pop(0) if _BIG_C2A else None      # every run has the three boundary positions
+    if forced is not None or rng.random() < 0.04:
+        # many products: the last autocorrelation sits exactly at position 255 / 256 / 257 (or 254 / 258), where
+        # the index arrays change their integer width
+        inputs = [f'm{a:03}{p}' for a in range(12) for p in 'hv']
+        autos = [[i, i] for i in inputs]
+        cross = [[a, b] for k, a in enumerate(inputs) for b in inputs[k + 1:]]
+        rng.shuffle(cross)
+        rng.shuffle(autos)
+        last = forced if forced is not None else rng.choice([254, 255, 256, 256, 257, 258])
+        first = last - len(autos) + 1
+        cps = cross[:first] + autos + cross[first:]
+        return dict(kind='c2a', cps=cps, as_array=rng.random() < 0.5)
     cps = gen_cps(rng, drop_auto=rng.random() < 0.15)
     dup = rng.random() < 0.05
     if dup:
